@@ -1,6 +1,142 @@
 import Fabio.Driver.Proto
+import Fabio.Model.C18
 namespace Fabio.Driver.C18
-open Lean Fabio.Driver
+open Lean Fabio.Driver Fabio.Model.C18
 
-def streams : List (String × Handler) := []
+/-- the contract the current tree is expected to satisfy (the repaired one) -/
+def contract : GrpcContract := .stopsAtDeadline
+
+structure SrvIn where
+  kind : String
+  work : List Time
+  hwork : List Time
+
+def parseTime (j : Json) : Except String Time :=
+  match j with
+  | .null => .ok none
+  | _ => do let n ← j.getNat?; return some n
+
+def parseTimes (j : Json) (key : String) : Except String (List Time) :=
+  match j.getObjVal? key with
+  | .error _ => .ok []
+  | .ok .null => .ok []
+  | .ok v => do
+    let a ← v.getArr?
+    a.toList.mapM parseTime
+
+def parseSrv (j : Json) : Except String SrvIn := do
+  let kind ← j.getObjValAs? String "kind"
+  let work ← parseTimes j "work"
+  let hwork ← parseTimes j "hwork"
+  return { kind, work, hwork }
+
+def toServer (s : SrvIn) : Except String Server :=
+  match s.kind with
+  | "http" => .ok (.single { kind := .http, work := s.work })
+  | "tcp" => .ok (.single { kind := .tcp, work := s.work })
+  | "sni" => .ok (.single { kind := .tcp, work := s.work })
+  | "grpc" => .ok (.single { kind := .grpc, work := s.work })
+  | "inetaf" => .ok (.multi [{ kind := .tcp, work := s.work }, { kind := .http, work := s.hwork }])
+  | k => .error s!"unknown server kind {k}"
+
+def fateStr : Fate → String
+  | .completed => "completed"
+  | .cut => "cut"
+  | .stillOpen => "open"
+
+def durStr : DurClass → String
+  | .early => "early"
+  | .deadline => "deadline"
+  | .over => "over"
+
+def leafKinds (s : SrvIn) : Kind × Kind :=
+  match s.kind with
+  | "http" => (.http, .http)
+  | "grpc" => (.grpc, .grpc)
+  | "inetaf" => (.tcp, .http)
+  | _ => (.tcp, .tcp)
+
+def fatesJson (wait : Nat) (k : Kind) (ws : List Time) : Json :=
+  Json.arr (ws.map (fun e => Json.str (fateStr (fate contract 0 wait k e)))).toArray
+
+def beyond (wait : Nat) (ws : List Time) : Bool := ws.any (fun e => !(tle e (some wait)))
+
+def strList (j : Json) (key : String) : Except String (List String) := do
+  let v ← j.getObjVal? key
+  let a ← v.getArr?
+  a.toList.mapM (fun x => x.getStr?)
+
+/-- the specification, evaluated on the implementation's own observation: `proxy.Shutdown` returned within
+wait + slack; every piece of work that ended within the wait completed; no connection attempt made after
+shutdown began was accepted. `none` = the observation does not have the shape of the scenario. -/
+def specOf (wait : Nat) (srvs : List SrvIn) (impl : Json) : Option Bool := do
+  let dur ← (impl.getObjValAs? String "dur").toOption
+  let isrvs ← ((impl.getObjVal? "servers").toOption >>= fun v => v.getArr?.toOption)
+  let acc ← ((impl.getObjVal? "accepted").toOption >>= fun v => v.getArr?.toOption)
+  if isrvs.size != srvs.length || acc.size != srvs.length then none
+  let mut ok := dur != "over"
+  for a in acc do
+    let b ← a.getBool?.toOption
+    if b then ok := false
+  for (s, js) in srvs.zip isrvs.toList do
+    let fw ← (strList js "work").toOption
+    let fh ← (strList js "hwork").toOption
+    if fw.length != s.work.length || fh.length != s.hwork.length then none
+    for (e, f) in (s.work ++ s.hwork).zip (fw ++ fh) do
+      if tle e (some wait) && f != "completed" then ok := false
+  return ok
+
+def shutdownH : Handler := fun inp impl => do
+  let wait ← inp.getObjValAs? Nat "wait"
+  let sj ← inp.getObjVal? "servers"
+  let sa ← sj.getArr?
+  let srvs ← sa.toList.mapM parseSrv
+  let servers ← srvs.mapM toServer
+  let ret := shutdownReturn contract 0 wait servers
+  let m := Json.mkObj [
+    ("dur", Json.str (durStr (durClass 0 wait ret))),
+    ("servers", Json.arr (srvs.map (fun s =>
+        let (k1, k2) := leafKinds s
+        Json.mkObj [("work", fatesJson wait k1 s.work), ("hwork", fatesJson wait k2 s.hwork)])).toArray),
+    ("accepted", Json.arr (srvs.map (fun _ => Json.bool false)).toArray)]
+  let nwork := srvs.foldl (fun n s => n + s.work.length + s.hwork.length) 0
+  let kindsWith (p : SrvIn → Bool) := srvs.any p
+  let gOpen := kindsWith (fun s => s.kind == "grpc" && beyond wait s.work)
+  let tOpen := kindsWith (fun s => (s.kind == "tcp" || s.kind == "sni" || s.kind == "inetaf") && beyond wait s.work)
+  let hOpen := kindsWith (fun s => (s.kind == "http" && beyond wait s.work) || (s.kind == "inetaf" && beyond wait s.hwork))
+  let cls := if gOpen then "grpc-open-work" else if tOpen then "tcp-open-work" else if hOpen then "http-open-work"
+             else if nwork > 0 then "short-work-only" else "idle"
+  let tag := if srvs.length > 1 then cls ++ "+mix" else cls
+  match specOf wait srvs impl with
+  | none =>
+    return ({ model := m, agree := false, spec := true, nontrivial := false, tag := "impl-unparsed" } : Verdict).toJson
+  | some sp =>
+    let implCore := Json.mkObj [
+      ("dur", (impl.getObjVal? "dur").toOption.getD Json.null),
+      ("servers", (impl.getObjVal? "servers").toOption.getD Json.null),
+      ("accepted", (impl.getObjVal? "accepted").toOption.getD Json.null)]
+    return ({ model := m, agree := m == implCore, spec := sp, nontrivial := nwork > 0, tag := tag } : Verdict).toJson
+
+/-! `c18.process`: the real `fabio` binary, SIGTERM, probes. Input: `{"wait","grace","dynamic":bool,"refresh"}`;
+observation: `{"exit": "early|deadline|over", "accepted_after": bool, "order_ok": bool, "short_completed": bool}`. -/
+def processH : Handler := fun inp impl => do
+  let dynamic := (inp.getObjValAs? Bool "dynamic").toOption.getD false
+  let m := Json.mkObj [("exit", "deadline"), ("accepted_after", false), ("order_ok", true), ("short_completed", true)]
+  let core := Json.mkObj [
+      ("exit", (impl.getObjVal? "exit").toOption.getD Json.null),
+      ("accepted_after", (impl.getObjVal? "accepted_after").toOption.getD Json.null),
+      ("order_ok", (impl.getObjVal? "order_ok").toOption.getD Json.null),
+      ("short_completed", (impl.getObjVal? "short_completed").toOption.getD Json.null)]
+  match (impl.getObjValAs? String "exit").toOption, (impl.getObjValAs? Bool "accepted_after").toOption,
+        (impl.getObjValAs? Bool "order_ok").toOption, (impl.getObjValAs? Bool "short_completed").toOption with
+  | some ex, some acc, some ord, some sh =>
+    let sp := ex != "over" && !acc && ord && sh
+    let base := if dynamic then "dynamic" else "static"
+    let tag := if acc then base ++ "-listener-accepts-after-shutdown" else if !sh then base ++ "-short-work-cut"
+               else if !ord then base ++ "-closed-during-grace" else if ex == "over" then base ++ "-exit-late" else base
+    return ({ model := m, agree := m == core, spec := sp, nontrivial := true, tag := tag } : Verdict).toJson
+  | _, _, _, _ =>
+    return ({ model := m, agree := false, spec := true, nontrivial := false, tag := "impl-unparsed" } : Verdict).toJson
+
+def streams : List (String × Handler) := [("c18.shutdown", shutdownH), ("c18.process", processH)]
 end Fabio.Driver.C18
